@@ -537,3 +537,8 @@ def _derived(ct, tier, seed):
 
 contract('C09.runtime.derived', [WF + ':OPDFan.__init__', WF + ':OPD.rms', 'optiland/analysis/rms_vs_field.py:RmsWavefrontErrorVsField._rms_wavefront_error',
                                  'optiland/optimization/operand/ray.py:RayOperand.OPD_difference'], ['C09'], custom=_derived)(lambda c: None)
+
+
+# concrete inputs found by the defect-hunting sub-agents (bounded replay, see contracts/hunt.py)
+from . import hunt as _hunt  # noqa: E402
+_hunt.register('C09')
